@@ -735,6 +735,12 @@ let rec map f = function
 | [] -> []
 | a :: t -> (f a) :: (map f t)
 
+(** val flat_map : ('a1 -> 'a2 list) -> 'a1 list -> 'a2 list **)
+
+let rec flat_map f = function
+| [] -> []
+| x :: t -> app (f x) (flat_map f t)
+
 (** val existsb : ('a1 -> bool) -> 'a1 list -> bool **)
 
 let rec existsb f = function
@@ -752,6 +758,18 @@ let rec forallb f = function
 let rec filter f = function
 | [] -> []
 | x :: l0 -> if f x then x :: (filter f l0) else filter f l0
+
+(** val find : ('a1 -> bool) -> 'a1 list -> 'a1 option **)
+
+let rec find f = function
+| [] -> None
+| x :: tl -> if f x then Some x else find f tl
+
+(** val seq : nat -> nat -> nat list **)
+
+let rec seq start = function
+| O -> []
+| S len0 -> start :: (seq (S start) len0)
 
 type ascii =
 | Ascii of bool * bool * bool * bool * bool * bool * bool * bool
@@ -1021,6 +1039,12 @@ let vOk v0 =
   VL ((VS (String ((Ascii (true, true, true, true, false, false, true,
     false)), (String ((Ascii (true, true, false, true, false, false, true,
     false)), EmptyString))))) :: (v0 :: []))
+
+(** val getZ : v -> z **)
+
+let getZ = function
+| VZ z0 -> z0
+| _ -> Z0
 
 (** val getS : v -> string **)
 
@@ -4251,6 +4275,350 @@ let run_export cmd a =
                                                   (nth (S O) a (VZ Z0)))))
                                      else None
 
+(** val val_eqb0 : val0 -> val0 -> bool **)
+
+let val_eqb0 a b =
+  match a with
+  | VInt x ->
+    (match b with
+     | VInt y -> Z.eqb x y
+     | VReal y -> qeq_bool (inject_Z x) y
+     | _ -> false)
+  | VReal x ->
+    (match b with
+     | VInt y -> qeq_bool x (inject_Z y)
+     | VReal y -> qeq_bool x y
+     | _ -> false)
+  | VText x -> (match b with
+                | VText y -> eqb1 x y
+                | _ -> false)
+  | _ -> false
+
+type table = row list
+
+(** val key_of : nat list -> row -> val0 list **)
+
+let key_of idx r =
+  map (fun i -> nth i r VNull) idx
+
+(** val keys_eqb : val0 list -> val0 list -> bool **)
+
+let rec keys_eqb a b =
+  match a with
+  | [] -> (match b with
+           | [] -> true
+           | _ :: _ -> false)
+  | x :: a' ->
+    (match b with
+     | [] -> false
+     | y :: b' -> (&&) (val_eqb0 x y) (keys_eqb a' b'))
+
+(** val same_key : nat list -> row -> row -> bool **)
+
+let same_key idx r r' =
+  keys_eqb (key_of idx r) (key_of idx r')
+
+(** val join : nat list -> table list -> row list list **)
+
+let rec join idx = function
+| [] -> [] :: []
+| t :: rest ->
+  flat_map (fun r ->
+    map (fun x -> r :: x) (filter (forallb (same_key idx r)) (join idx rest)))
+    t
+
+(** val project : nat list -> row -> row **)
+
+let project cols r =
+  map (fun i -> nth i r VNull) cols
+
+(** val get_intersection :
+    nat list -> nat list -> table list -> row list list **)
+
+let get_intersection idx cols tables =
+  let tuples = join idx tables in
+  map (fun it -> map (fun tup -> project cols (nth it tup [])) tuples)
+    (seq O (length tables))
+
+(** val std_cols : string list **)
+
+let std_cols =
+  (String ((Ascii (true, true, false, false, true, true, true, false)),
+    (String ((Ascii (true, false, true, false, false, true, true, false)),
+    (String ((Ascii (false, true, false, false, true, true, true, false)),
+    (String ((Ascii (true, false, false, true, false, true, true, false)),
+    (String ((Ascii (true, false, false, false, false, true, true, false)),
+    (String ((Ascii (false, false, true, true, false, true, true, false)),
+    EmptyString)))))))))))) :: ((String ((Ascii (false, true, true, true,
+    false, true, true, false)), (String ((Ascii (true, false, false, false,
+    false, true, true, false)), (String ((Ascii (true, false, true, true,
+    false, true, true, false)), (String ((Ascii (true, false, true, false,
+    false, true, true, false)), EmptyString)))))))) :: ((String ((Ascii
+    (true, false, false, false, false, true, true, false)), (String ((Ascii
+    (false, false, true, true, false, true, true, false)), (String ((Ascii
+    (false, false, true, false, true, true, true, false)), (String ((Ascii
+    (false, false, true, true, false, false, true, false)), (String ((Ascii
+    (true, true, true, true, false, true, true, false)), (String ((Ascii
+    (true, true, false, false, false, true, true, false)),
+    EmptyString)))))))))))) :: ((String ((Ascii (false, true, false, false,
+    true, true, true, false)), (String ((Ascii (true, false, true, false,
+    false, true, true, false)), (String ((Ascii (true, true, false, false,
+    true, true, true, false)), (String ((Ascii (false, true, true, true,
+    false, false, true, false)), (String ((Ascii (true, false, false, false,
+    false, true, true, false)), (String ((Ascii (true, false, true, true,
+    false, true, true, false)), (String ((Ascii (true, false, true, false,
+    false, true, true, false)), EmptyString)))))))))))))) :: ((String ((Ascii
+    (true, true, false, false, false, true, true, false)), (String ((Ascii
+    (false, false, false, true, false, true, true, false)), (String ((Ascii
+    (true, false, false, false, false, true, true, false)), (String ((Ascii
+    (true, false, false, true, false, true, true, false)), (String ((Ascii
+    (false, true, true, true, false, true, true, false)), (String ((Ascii
+    (true, false, false, true, false, false, true, false)), (String ((Ascii
+    (false, false, true, false, false, false, true, false)),
+    EmptyString)))))))))))))) :: ((String ((Ascii (false, true, false, false,
+    true, true, true, false)), (String ((Ascii (true, false, true, false,
+    false, true, true, false)), (String ((Ascii (true, true, false, false,
+    true, true, true, false)), (String ((Ascii (true, true, false, false,
+    true, false, true, false)), (String ((Ascii (true, false, true, false,
+    false, true, true, false)), (String ((Ascii (true, false, false, false,
+    true, true, true, false)), EmptyString)))))))))))) :: ((String ((Ascii
+    (true, false, false, true, false, true, true, false)), (String ((Ascii
+    (true, true, false, false, false, false, true, false)), (String ((Ascii
+    (true, true, true, true, false, true, true, false)), (String ((Ascii
+    (false, false, true, false, false, true, true, false)), (String ((Ascii
+    (true, false, true, false, false, true, true, false)),
+    EmptyString)))))))))) :: ((String ((Ascii (false, false, false, true,
+    true, true, true, false)), EmptyString)) :: ((String ((Ascii (true,
+    false, false, true, true, true, true, false)), EmptyString)) :: ((String
+    ((Ascii (false, true, false, true, true, true, true, false)),
+    EmptyString)) :: ((String ((Ascii (true, true, true, true, false, true,
+    true, false)), (String ((Ascii (true, true, false, false, false, true,
+    true, false)), (String ((Ascii (true, true, false, false, false, true,
+    true, false)), EmptyString)))))) :: ((String ((Ascii (false, false, true,
+    false, true, true, true, false)), (String ((Ascii (true, false, true,
+    false, false, true, true, false)), (String ((Ascii (true, false, true,
+    true, false, true, true, false)), (String ((Ascii (false, false, false,
+    false, true, true, true, false)), EmptyString)))))))) :: ((String ((Ascii
+    (true, false, true, false, false, true, true, false)), (String ((Ascii
+    (false, false, true, true, false, true, true, false)), (String ((Ascii
+    (true, false, true, false, false, true, true, false)), (String ((Ascii
+    (true, false, true, true, false, true, true, false)), (String ((Ascii
+    (true, false, true, false, false, true, true, false)), (String ((Ascii
+    (false, true, true, true, false, true, true, false)), (String ((Ascii
+    (false, false, true, false, true, true, true, false)),
+    EmptyString)))))))))))))) :: ((String ((Ascii (true, false, true, true,
+    false, true, true, false)), (String ((Ascii (true, true, true, true,
+    false, true, true, false)), (String ((Ascii (false, false, true, false,
+    false, true, true, false)), (String ((Ascii (true, false, true, false,
+    false, true, true, false)), (String ((Ascii (false, false, true, true,
+    false, true, true, false)), EmptyString)))))))))) :: [])))))))))))))
+
+(** val lower_char : ascii -> ascii **)
+
+let lower_char c =
+  let n0 = nat_of_ascii c in
+  if (&&)
+       (Nat.leb (S (S (S (S (S (S (S (S (S (S (S (S (S (S (S (S (S (S (S (S
+         (S (S (S (S (S (S (S (S (S (S (S (S (S (S (S (S (S (S (S (S (S (S (S
+         (S (S (S (S (S (S (S (S (S (S (S (S (S (S (S (S (S (S (S (S (S (S
+         O)))))))))))))))))))))))))))))))))))))))))))))))))))))))))))))))))
+         n0)
+       (Nat.leb n0 (S (S (S (S (S (S (S (S (S (S (S (S (S (S (S (S (S (S (S
+         (S (S (S (S (S (S (S (S (S (S (S (S (S (S (S (S (S (S (S (S (S (S (S
+         (S (S (S (S (S (S (S (S (S (S (S (S (S (S (S (S (S (S (S (S (S (S (S
+         (S (S (S (S (S (S (S (S (S (S (S (S (S (S (S (S (S (S (S (S (S (S (S
+         (S (S
+         O)))))))))))))))))))))))))))))))))))))))))))))))))))))))))))))))))))))))))))))))))))))))))))
+  then ascii_of_nat
+         (add n0 (S (S (S (S (S (S (S (S (S (S (S (S (S (S (S (S (S (S (S (S
+           (S (S (S (S (S (S (S (S (S (S (S (S
+           O)))))))))))))))))))))))))))))))))
+  else c
+
+(** val lower : string -> string **)
+
+let rec lower = function
+| EmptyString -> EmptyString
+| String (c, t) -> String ((lower_char c), (lower t))
+
+(** val index_of :
+    (string -> string -> bool) -> string -> string list -> nat -> nat option **)
+
+let rec index_of eq x l k =
+  match l with
+  | [] -> None
+  | y :: t -> if eq x y then Some k else index_of eq x t (S k)
+
+(** val col_index_ci : string -> nat option **)
+
+let col_index_ci c =
+  index_of (fun a b -> eqb1 (lower a) (lower b)) c std_cols O
+
+(** val find_key : nat list -> row -> table -> row option **)
+
+let find_key idx r t =
+  find (same_key idx r) t
+
+(** val find_all : nat list -> row -> table list -> row list option **)
+
+let rec find_all idx r = function
+| [] -> Some []
+| t :: rest ->
+  (match find_key idx r t with
+   | Some x ->
+     (match find_all idx r rest with
+      | Some xs -> Some (x :: xs)
+      | None -> None)
+   | None -> None)
+
+(** val spec_tuples : nat list -> table list -> row list list **)
+
+let spec_tuples idx = function
+| [] -> [] :: []
+| t0 :: rest ->
+  flat_map (fun r ->
+    match find_all idx r rest with
+    | Some xs -> (r :: xs) :: []
+    | None -> []) t0
+
+(** val spec_intersection :
+    nat list -> nat list -> table list -> row list list **)
+
+let spec_intersection idx cols tables =
+  let tuples = spec_tuples idx tables in
+  map (fun it -> map (fun tup -> project cols (nth it tup [])) tuples)
+    (seq O (length tables))
+
+(** val unique_keys : nat list -> table -> bool **)
+
+let rec unique_keys idx = function
+| [] -> true
+| r :: rest ->
+  (&&) (negb (existsb (same_key idx r) rest)) (unique_keys idx rest)
+
+(** val tables_of_V : v -> table list **)
+
+let tables_of_V v0 =
+  map (fun t -> map row_of_V (getL t)) (getL v0)
+
+(** val nats_of_V : v -> nat list **)
+
+let nats_of_V v0 =
+  map (fun x -> Z.to_nat (getZ x)) (getL v0)
+
+(** val vtables : row list list -> v **)
+
+let vtables ts =
+  VL (map vrows ts)
+
+(** val run_many : string -> v list -> v option **)
+
+let run_many cmd a =
+  if eqb1 cmd (String ((Ascii (true, false, true, true, false, true, true,
+       false)), (String ((Ascii (true, false, false, false, false, true,
+       true, false)), (String ((Ascii (false, true, true, true, false, true,
+       true, false)), (String ((Ascii (true, false, false, true, true, true,
+       true, false)), (String ((Ascii (false, true, true, true, false, true,
+       false, false)), (String ((Ascii (true, false, false, true, false,
+       true, true, false)), (String ((Ascii (false, true, true, true, false,
+       true, true, false)), (String ((Ascii (false, false, true, false, true,
+       true, true, false)), (String ((Ascii (true, false, true, false, false,
+       true, true, false)), (String ((Ascii (false, true, false, false, true,
+       true, true, false)), (String ((Ascii (true, true, false, false, true,
+       true, true, false)), (String ((Ascii (true, false, true, false, false,
+       true, true, false)), (String ((Ascii (true, true, false, false, false,
+       true, true, false)), (String ((Ascii (false, false, true, false, true,
+       true, true, false)), (String ((Ascii (true, false, false, true, false,
+       true, true, false)), (String ((Ascii (true, true, true, true, false,
+       true, true, false)), (String ((Ascii (false, true, true, true, false,
+       true, true, false)), EmptyString))))))))))))))))))))))))))))))))))
+  then Some
+         (vtables
+           (get_intersection (nats_of_V (nth O a (VZ Z0)))
+             (nats_of_V (nth (S O) a (VZ Z0)))
+             (tables_of_V (nth (S (S O)) a (VZ Z0)))))
+  else if eqb1 cmd (String ((Ascii (true, true, false, false, true, true,
+            true, false)), (String ((Ascii (false, false, false, false, true,
+            true, true, false)), (String ((Ascii (true, false, true, false,
+            false, true, true, false)), (String ((Ascii (true, true, false,
+            false, false, true, true, false)), (String ((Ascii (false, true,
+            true, true, false, true, false, false)), (String ((Ascii (true,
+            false, true, true, false, true, true, false)), (String ((Ascii
+            (true, false, false, false, false, true, true, false)), (String
+            ((Ascii (false, true, true, true, false, true, true, false)),
+            (String ((Ascii (true, false, false, true, true, true, true,
+            false)), (String ((Ascii (false, true, true, true, false, true,
+            false, false)), (String ((Ascii (true, false, false, true, false,
+            true, true, false)), (String ((Ascii (false, true, true, true,
+            false, true, true, false)), (String ((Ascii (false, false, true,
+            false, true, true, true, false)), (String ((Ascii (true, false,
+            true, false, false, true, true, false)), (String ((Ascii (false,
+            true, false, false, true, true, true, false)), (String ((Ascii
+            (true, true, false, false, true, true, true, false)), (String
+            ((Ascii (true, false, true, false, false, true, true, false)),
+            (String ((Ascii (true, true, false, false, false, true, true,
+            false)), (String ((Ascii (false, false, true, false, true, true,
+            true, false)), (String ((Ascii (true, false, false, true, false,
+            true, true, false)), (String ((Ascii (true, true, true, true,
+            false, true, true, false)), (String ((Ascii (false, true, true,
+            true, false, true, true, false)),
+            EmptyString))))))))))))))))))))))))))))))))))))))))))))
+       then Some
+              (vtables
+                (spec_intersection (nats_of_V (nth O a (VZ Z0)))
+                  (nats_of_V (nth (S O) a (VZ Z0)))
+                  (tables_of_V (nth (S (S O)) a (VZ Z0)))))
+       else if eqb1 cmd (String ((Ascii (true, true, false, false, true,
+                 true, true, false)), (String ((Ascii (false, false, false,
+                 false, true, true, true, false)), (String ((Ascii (true,
+                 false, true, false, false, true, true, false)), (String
+                 ((Ascii (true, true, false, false, false, true, true,
+                 false)), (String ((Ascii (false, true, true, true, false,
+                 true, false, false)), (String ((Ascii (true, false, true,
+                 true, false, true, true, false)), (String ((Ascii (true,
+                 false, false, false, false, true, true, false)), (String
+                 ((Ascii (false, true, true, true, false, true, true,
+                 false)), (String ((Ascii (true, false, false, true, true,
+                 true, true, false)), (String ((Ascii (false, true, true,
+                 true, false, true, false, false)), (String ((Ascii (true,
+                 false, true, false, true, true, true, false)), (String
+                 ((Ascii (false, true, true, true, false, true, true,
+                 false)), (String ((Ascii (true, false, false, true, false,
+                 true, true, false)), (String ((Ascii (true, false, false,
+                 false, true, true, true, false)), (String ((Ascii (true,
+                 false, true, false, true, true, true, false)), (String
+                 ((Ascii (true, false, true, false, false, true, true,
+                 false)), EmptyString))))))))))))))))))))))))))))))))
+            then Some
+                   (vB
+                     (forallb (unique_keys (nats_of_V (nth O a (VZ Z0))))
+                       (tables_of_V (nth (S O) a (VZ Z0)))))
+            else if eqb1 cmd (String ((Ascii (true, false, true, true, false,
+                      true, true, false)), (String ((Ascii (true, false,
+                      false, false, false, true, true, false)), (String
+                      ((Ascii (false, true, true, true, false, true, true,
+                      false)), (String ((Ascii (true, false, false, true,
+                      true, true, true, false)), (String ((Ascii (false,
+                      true, true, true, false, true, false, false)), (String
+                      ((Ascii (true, true, false, false, false, true, true,
+                      false)), (String ((Ascii (true, true, true, true,
+                      false, true, true, false)), (String ((Ascii (false,
+                      false, true, true, false, true, true, false)), (String
+                      ((Ascii (true, true, true, true, true, false, true,
+                      false)), (String ((Ascii (true, false, false, true,
+                      false, true, true, false)), (String ((Ascii (false,
+                      true, true, true, false, true, true, false)), (String
+                      ((Ascii (false, false, true, false, false, true, true,
+                      false)), (String ((Ascii (true, false, true, false,
+                      false, true, true, false)), (String ((Ascii (false,
+                      false, false, true, true, true, true, false)),
+                      EmptyString))))))))))))))))))))))))))))
+                 then Some
+                        (match col_index_ci (getS (nth O a (VZ Z0))) with
+                         | Some k -> VZ (Z.of_nat k)
+                         | None -> VZ (Zneg XH))
+                 else None
+
 (** val vresS : string res -> v **)
 
 let vresS = function
@@ -4434,26 +4802,30 @@ let run = function
               (match run_export cmd args with
                | Some r -> r
                | None ->
-                 vErr (String ((Ascii (true, false, true, false, true, true,
-                   true, false)), (String ((Ascii (false, true, true, true,
-                   false, true, true, false)), (String ((Ascii (true, true,
-                   false, true, false, true, true, false)), (String ((Ascii
-                   (false, true, true, true, false, true, true, false)),
-                   (String ((Ascii (true, true, true, true, false, true,
-                   true, false)), (String ((Ascii (true, true, true, false,
-                   true, true, true, false)), (String ((Ascii (false, true,
-                   true, true, false, true, true, false)), (String ((Ascii
-                   (true, false, true, true, false, true, false, false)),
-                   (String ((Ascii (true, true, false, false, false, true,
-                   true, false)), (String ((Ascii (true, true, true, true,
-                   false, true, true, false)), (String ((Ascii (true, false,
-                   true, true, false, true, true, false)), (String ((Ascii
-                   (true, false, true, true, false, true, true, false)),
-                   (String ((Ascii (true, false, false, false, false, true,
-                   true, false)), (String ((Ascii (false, true, true, true,
-                   false, true, true, false)), (String ((Ascii (false, false,
-                   true, false, false, true, true, false)),
-                   EmptyString)))))))))))))))))))))))))))))))))
+                 (match run_many cmd args with
+                  | Some r -> r
+                  | None ->
+                    vErr (String ((Ascii (true, false, true, false, true,
+                      true, true, false)), (String ((Ascii (false, true,
+                      true, true, false, true, true, false)), (String ((Ascii
+                      (true, true, false, true, false, true, true, false)),
+                      (String ((Ascii (false, true, true, true, false, true,
+                      true, false)), (String ((Ascii (true, true, true, true,
+                      false, true, true, false)), (String ((Ascii (true,
+                      true, true, false, true, true, true, false)), (String
+                      ((Ascii (false, true, true, true, false, true, true,
+                      false)), (String ((Ascii (true, false, true, true,
+                      false, true, false, false)), (String ((Ascii (true,
+                      true, false, false, false, true, true, false)), (String
+                      ((Ascii (true, true, true, true, false, true, true,
+                      false)), (String ((Ascii (true, false, true, true,
+                      false, true, true, false)), (String ((Ascii (true,
+                      false, true, true, false, true, true, false)), (String
+                      ((Ascii (true, false, false, false, false, true, true,
+                      false)), (String ((Ascii (false, true, true, true,
+                      false, true, true, false)), (String ((Ascii (false,
+                      false, true, false, false, true, true, false)),
+                      EmptyString))))))))))))))))))))))))))))))))))
       | _ ->
         vErr (String ((Ascii (false, true, false, false, false, true, true,
           false)), (String ((Ascii (true, false, false, false, false, true,
